@@ -462,6 +462,7 @@ type ReqList struct {
 type ReqCase struct {
 	Lock   LockCase    `json:"lock"`  // a short locking history first
 	Lists  [][]ReqList `json:"lists"` // per block
+	Valid  []bool      `json:"valid"` // per block: build every list so that it is individually acceptable (the whole message applies)
 	Mask   bool        `json:"mask"`  // mask amounts to 128 bits (multi-block regime)
 }
 
@@ -480,8 +481,21 @@ var reqTypes = []byte{goattypes.CreateRequestType, goattypes.LockRequestType, go
 	goattypes.UpdateTokenWeightRequestType, goattypes.UpdateTokenThresholdRequestType, goattypes.DepositTaxRequestType, goattypes.MinDepositRequestType,
 	goattypes.AddVoterRequestType, goattypes.RemoveVoterRequestType, 8, 17, 22, 255}
 
+// validReqTypes can be made individually acceptable by planting references to existing entities.
+var validReqTypes = []byte{goattypes.CreateRequestType, goattypes.LockRequestType, goattypes.UnlockRequestType, goattypes.ClaimRequestType, goattypes.GrantRequestType,
+	goattypes.UpdateTokenWeightRequestType, goattypes.UpdateTokenThresholdRequestType, goattypes.DepositTaxRequestType, goattypes.ConfirmationNumberRequestType,
+	goattypes.MinDepositRequestType, goattypes.AddVoterRequestType, goattypes.RemoveVoterRequestType, goattypes.RemoveVoterRequestType}
+
 func buildReqList(r ReqList, mask bool) []byte {
+	return buildReqListMode(r, mask, false)
+}
+
+func buildReqListMode(r ReqList, mask, valid bool) []byte {
 	ty := reqTypes[abs(r.Type)%len(reqTypes)]
+	if valid {
+		ty = validReqTypes[abs(r.Type)%len(validReqTypes)]
+		r.Pattern, r.Trunc = 3, 0
+	}
 	rl := reqRecordLen[ty]
 	if rl == 0 {
 		rl = 16
@@ -527,6 +541,9 @@ func buildReqList(r ReqList, mask bool) []byte {
 				copy(rec[8:28], v[:])
 			case goattypes.UpdateTokenWeightRequestType, goattypes.UpdateTokenThresholdRequestType:
 				copy(rec[0:20], tk[:])
+			case goattypes.AddVoterRequestType, goattypes.RemoveVoterRequestType:
+				m, _ := world.RelayerMember(int(next()) % 5)
+				copy(rec[0:20], m.EthAddr().Bytes())
 			case goattypes.CreateRequestType:
 				a := valAccount(int(next()) % lockUniverse)
 				pk := a.Uncompressed64()
@@ -536,6 +553,15 @@ func buildReqList(r ReqList, mask bool) []byte {
 		}
 		if ty == goattypes.UpdateTokenWeightRequestType && bytes.Equal(rec[0:20], make([]byte, 20)) && binary.LittleEndian.Uint64(rec[20:28]) == 0 {
 			rec[20] = 1 // the anchor's token (the zero address) keeps a weight: see the restriction above
+		}
+		if valid {
+			// keep voting power within uint64: amounts below 2^80
+			switch ty {
+			case goattypes.LockRequestType, goattypes.UnlockRequestType, goattypes.GrantRequestType, goattypes.UpdateTokenThresholdRequestType:
+				for j := rl - 32; j < rl-10; j++ {
+					rec[j] = 0
+				}
+			}
 		}
 		if mask {
 			// amounts are 32-byte big-endian fields at the end of lock/unlock/grant/threshold/gas records: keep them below 2^128
@@ -559,6 +585,8 @@ func buildReqList(r ReqList, mask bool) []byte {
 
 func runReqCase(c ReqCase) Outcome {
 	o := Outcome{}
+	lockElectingPeriod = 90 * time.Second // elections happen during the follow-up blocks
+	defer func() { lockElectingPeriod = 1000 * time.Hour }()
 	w, err := newLockWorld(c.Lock)
 	if err != nil {
 		o.Fail = failf("fixture", "fixture-failed", "%v", err)
@@ -574,8 +602,21 @@ func runReqCase(c ReqCase) Outcome {
 	sim := w.sim
 	for bi, lists := range c.Lists {
 		var reqs [][]byte
+		valid := bi < len(c.Valid) && c.Valid[bi]
+		seenType := map[byte]bool{}
 		for _, r := range lists {
-			reqs = append(reqs, buildReqList(r, c.Mask))
+			l := buildReqListMode(r, c.Mask, valid)
+			if valid {
+				// the execution layer emits one list per type
+				if len(l) < 2 || seenType[l[0]] {
+					continue
+				}
+				seenType[l[0]] = true
+			}
+			reqs = append(reqs, l)
+		}
+		if valid {
+			o.Classes = append(o.Classes, "valid-biased")
 		}
 		blk, txs, err := sim.Begin(world.StepOpts{DT: 5 * time.Second, Proposer: -1, Eth: world.EthBlockOpts{Plan: world.BuildPlan{Requests: reqs, GasAmount: big.NewInt(int64(bi))}}})
 		if err != nil {
@@ -608,8 +649,8 @@ func runReqCase(c ReqCase) Outcome {
 			o.NonTrivial = true
 		}
 	}
-	for i := 0; i < 3; i++ {
-		if _, err := sim.Step(world.StepOpts{DT: 30 * time.Second, Proposer: -1}); err != nil {
+	for i := 0; i < 4; i++ {
+		if _, err := sim.Step(world.StepOpts{DT: 50 * time.Second, Proposer: -1}); err != nil {
 			o.Fail = failf("blocks-never-fail", "block-failed-after-request-list/"+classifyHalt(err.Error()), "follow-up block %d: %v", i, err)
 			return o
 		}
@@ -643,6 +684,7 @@ func TestC19_RequestLists(t *testing.T) {
 						Seed: rapid.Uint64().Draw(t, "seed"), Pattern: rapid.SampledFrom([]int{0, 1, 2, 3, 3, 3, 3, 3}).Draw(t, "pattern"), Trunc: rapid.SampledFrom([]int{0, 0, 0, 1, 5, 33}).Draw(t, "trunc")})
 				}
 				c.Lists = append(c.Lists, ls)
+				c.Valid = append(c.Valid, rapid.Bool().Draw(t, "valid"))
 			}
 			return c
 		},
